@@ -74,6 +74,14 @@ class Gen:
         kind = kind or self.wchoice(self.p["kinds"])
         h = self.fresh_h()
         self.handles[h] = kind
+        if kind == "compt":
+            # a composite whose last sub-source is a Timer
+            n = self.r.choice([1, 1, 2, 2, 3])
+            subs = []
+            for _ in range(n):
+                subs += [self.pick_fd(), self.r.choice([1, 1, 1, 3]), self.r.choice([0, 0, 0, 1, 2])]
+            dl = self.r.choice([-1] + [2 * k for k in range(0, self.p["max_phase"] + 2)] * 3)
+            return ["insert %d compt 0 %d %d %s" % (h, dl, n, " ".join(str(x) for x in subs))], h
         if kind == "comp":
             n = self.r.choice([1, 1, 2, 2, 3, 4])
             lc = 1 if self.r.random() < self.p["lc_prob"] else 0
@@ -157,7 +165,9 @@ class Gen:
             if kind == "timer":
                 # set_deadline takes effect with the next update(): the two are generated as a pair
                 return "setdl %d %d\nupdate %d" % (tgt, 2 * self.r.randrange(0, self.p["max_phase"] + 2), tgt)
-            if kind == "comp":
+            if kind == "compt" and self.r.random() < 0.7:
+                return "setdl %d %d\nupdate %d" % (tgt, 2 * self.r.randrange(0, self.p["max_phase"] + 2), tgt)
+            if kind in ("comp", "compt"):
                 return "setint %d %d %d %d" % (tgt, self.r.randrange(0, 3), self.r.choice([0, 1, 2, 3]), self.r.choice([0, 1, 2]))
             return "update %d" % tgt
         if k < 0.86 + self.p["dropdisp_prob"]:
@@ -206,6 +216,10 @@ class Gen:
             if kind == "comp":
                 ret = 4 if self.r.random() < self.p["err_ret_prob"] else self.r.choice([0, 0, 0, 0, 1, 2, 3])
                 arg = 0
+            elif kind == "compt":
+                # the return code is a PostAction for an event of a Generic sub-source and a TimeoutAction for the Timer's
+                ret = self.r.choice([0, 0, 0, 1, 1, 1, 2, 3])
+                arg = 2 * self.r.randrange(0, self.p["max_phase"] + 3)
             elif kind == "timer":
                 ret = self.r.choice([0, 0, 1, 1, 1, 2])
                 arg = 2 * self.r.randrange(0, self.p["max_phase"] + 3)
